@@ -34,8 +34,14 @@ def plan(tier, seed):
     shape("login-then-tls-then-listscripts", "connect!,connect-tls*,listscripts",
           {"C10_SASL": "0,5", "C10_MECHS": "0,4", "C10_FREEZE": "okform"})
     if not q:
-        shape("connect-connect-getscript", "connect*,connect*,getscript", {"C10_SASL": "0,5", "C10_MECHS": "0,4"})
-        shape("tls-connect-deletescript", "connect-tls*,connect*,deletescript", {"C10_SASL": "0,5", "C10_MECHS": "0"})
+        # partitioned on the first two server choices (connection refused? / greeting behaviour)
+        for x0 in (0, 7):
+            for x1 in range(5):
+                part = {"C10_X0LO": x0, "C10_X0HI": x0 + 1 if x0 else 7, "C10_X1LO": x1, "C10_X1HI": x1 + 1}
+                shape("connect-connect-getscript-%d%d" % (x0, x1), "connect*,connect*,getscript",
+                      dict(part, C10_SASL="0,5", C10_MECHS="0,4", C10_FREEZE="okform"))
+                shape("tls-connect-deletescript-%d%d" % (x0, x1), "connect-tls*,connect*,deletescript",
+                      dict(part, C10_SASL="0,5", C10_MECHS="0", C10_FREEZE="okform"))
         shape("tls-tls-deletescript", "connect-tls!,connect-tls*,deletescript", {"C10_SASL": "0,1,5", "C10_MECHS": "0,1,4"})
     conds.append(Cond("c10-vacuity", F, "hist", env=dict(base, C10_SHAPE="connect*,deletescript"), timeout=90, vacuity=True))
     meta = dict(functions=["sievelib.managesieve.Client.connect", "__get_capabilities", "__starttls", "__authenticate",
